@@ -162,80 +162,66 @@ theorem reduce_add_get (x : COO Int) (axes : List Nat)
         out.get j = ((allIdx (gather x.shape axes)).map fun r =>
           x.get (gather (j ++ r)
             (invPerm (((List.range x.shape.length).filter fun a => !axes.contains a) ++ axes)))).sum := by
-  rw [reduceCore_eq]
-  have hadm : ¬ (RedOp.add.ap x.fill x.fill ≠ x.fill ∧ RedOp.add.super?.isNone) := by simp [RedOp.super?]
-  rw [if_neg hadm]
-  dsimp only [Bool.false_eq_true, if_false]
-  have gdef : ∀ (s l : List Nat), (l.map fun d => s.getD d 0) = gather s l := fun _ _ => rfl
-  simp only [gdef, Bool.false_eq_true, if_false]
-  generalize hkept : ((List.range x.shape.length).filter fun a => !axes.contains a) = kept
-  have hperm : (kept ++ axes).Perm (List.range x.shape.length) := hkept ▸ kept_axes_perm _ axes hnd hr
-  have hxnd : (keysOf x.entries).Nodup := keys_nodup_of_sortedLin _ _ hs
-  -- the transposed array
-  obtain ⟨hTs, hTf, hTwf, hTsort⟩ := transposeCore_facts x (kept ++ axes) hperm hwf hs
-  rw [gather_append] at hTs
-  generalize hT : x.transposeCore (kept ++ axes) = T at *
-  -- reshaped to 2-D
-  have hsize : prod T.shape = prod [prod (gather x.shape kept), prod (gather x.shape axes)] := by
-    rw [hTs, prod_append]; simp [prod]
-  obtain ⟨hAs, hAf, hAwf⟩ := reshapeCore_facts T _ hTwf hsize
-  have hAsort := reshapeCore_sorted T _ hTwf hsize hTsort
-  have hAget := fun j hj => (C08.reshape_get T _ hTwf hsize j hj).1
-  generalize hA : T.reshapeCore [prod (gather x.shape kept), prod (gather x.shape axes)] = A at *
-  -- the row reduction
-  have hfill : x.fill = A.fill := by rw [hAf, hTf]
-  obtain ⟨hRs, hRf, hRget⟩ := rowReduce_add_get A _ _ hAs hAwf (hAs ▸ hAsort)
-  have hRwf := rowReduce_add_wf A _ _ hAs hAwf (hAs ▸ hAsort) A.fill
-  have hRR : rowReduce .add A x.fill = rowReduce .add A A.fill := by rw [hfill]
-  rw [hRR]
-  generalize hR : rowReduce .add A A.fill = R1 at *
-  -- reshaped back
-  have hsize2 : prod R1.shape = prod (gather x.shape kept) := by rw [hRs]; simp [prod]
-  obtain ⟨hOs, hOf, hOwf⟩ := reshapeCore_facts R1 _ hRwf hsize2
-  have hOget := fun j hj => (C08.reshape_get R1 _ hRwf hsize2 j hj).1
-  refine ⟨R1.reshapeCore (gather x.shape kept), ?_, hOs, by rw [hOf, hRf, ← hfill], ?_⟩
-  · have hlen : (R1.reshapeCore (gather x.shape kept)).shape.length = kept.length := by
-      rw [hOs, gather_length]
-    by_cases hk : kept = []
-    · have h0 : (R1.reshapeCore (gather x.shape kept)).shape.length = 0 := by rw [hlen, hk]; rfl
-      rw [if_pos h0, if_pos hk]
-      congr 2
-      -- a 0-d array: every stored index is `[]`
-      have hs0 : (R1.reshapeCore (gather x.shape kept)).shape = [] := by rw [hOs, hk]; rfl
-      unfold COO.get
-      match hes : (R1.reshapeCore (gather x.shape kept)).entries with
-      | [] => simp
-      | e :: rest =>
-        have hin := hOwf e (by rw [hes]; exact List.mem_cons_self)
-        rw [hs0] at hin
-        have : e.1 = [] := by
-          match h : e.1, hin with
-          | [], _ => rfl
-        rw [lookup_cons, if_pos this]
-    · have h0 : ¬ (R1.reshapeCore (gather x.shape kept)).shape.length = 0 := by
-        rw [hlen]; intro h; exact hk (List.length_eq_zero_iff.mp h)
-      rw [if_neg h0, if_neg hk]
-  · intro j hj
-    have hjl : j.length = (gather x.shape kept).length := InB_length hj
-    have hrj : ravel j (gather x.shape kept) < prod (gather x.shape kept) := ravel_lt hj
-    rw [hOget j hj, hRs]
-    have hun : unravel (ravel j (gather x.shape kept)) [prod (gather x.shape kept)] = [ravel j (gather x.shape kept)] := by
-      simp [unravel, prod]
-    rw [hun, hRget, allIdx_eq_map_unravel, List.map_map]
-    congr 1
-    apply List.map_congr_left
-    intro c hc
-    simp only [Function.comp]
-    have hc' : c < prod (gather x.shape axes) := List.mem_range.mp hc
-    have hu := unravel_InB (gather x.shape axes) c hc'
-    rw [hAget [ravel j (gather x.shape kept), c] (by simp [hrj, hc']), hTs]
-    have hlin : ravel [ravel j (gather x.shape kept), c] [prod (gather x.shape kept), prod (gather x.shape axes)]
-        = ravel (j ++ unravel c (gather x.shape axes)) (gather x.shape kept ++ gather x.shape axes) := by
-      rw [ravel_append j _ hjl, ravel_unravel _ c hc', ravel2]
-    have hin : InB (j ++ unravel c (gather x.shape axes)) (gather x.shape kept ++ gather x.shape axes) :=
-      (InB_append _ _ _ _ hjl).mpr ⟨hj, hu⟩
-    rw [hlin, unravel_ravel hin, ← hT]
-    exact transpose_get x (kept ++ axes) hperm hwf hxnd _ (by rw [gather_append]; exact hin)
+  obtain ⟨A, out, hAs, hAwf, hAsort, hAf, hAget, hred, hOs, hOf, hOget⟩ :=
+    reduceCore_lift .add x axes transpose_get (by simp [RedOp.super?]) hwf hs hnd hr _ rfl
+  obtain ⟨_, hRf, hRget⟩ := rowReduce_add_get A _ _ hAs hAwf hAsort
+  refine ⟨out, hred, hOs, by rw [hOf, hRf, hAf], fun j hj => ?_⟩
+  rw [hOget j hj, hRget, allIdx_eq_map_unravel, List.map_map]
+  congr 1
+  apply List.map_congr_left
+  intro c hc
+  simp only [Function.comp]
+  exact hAget j c hj (List.mem_range.mp hc)
+
+/-- **reduce_max_get** (`max` over arbitrary axes, `keepdims=False`; idempotent path).  Same hypotheses
+as `reduce_add_get`, and no reduced extent is 0 (`0 < prod reduced extents`; NumPy raises there, and
+the code's behaviour on that input is the registered finding F-reduce-empty-axis).  The result has the
+kept extents as shape, the fill value unchanged, and element `j` is the maximum over all
+reduced-index combinations `r`: it bounds every `x.get (kept j, reduced r)` and is attained. -/
+theorem reduce_max_get (x : COO Int) (axes : List Nat)
+    (transpose_get : ∀ (y : COO Int) (p : List Nat), p.Perm (List.range y.shape.length) → y.WF →
+      (keysOf y.entries).Nodup → ∀ j, InB j (gather y.shape p) →
+      (y.transposeCore p).get j = y.get (gather j (invPerm p)))
+    (hwf : x.WF) (hs : SortedLin x.shape x.entries) (hnd : axes.Nodup)
+    (hr : ∀ a ∈ axes, a < x.shape.length) (hpos : 0 < prod (gather x.shape axes)) :
+    ∃ out : COO Int,
+      COO.reduceCore .max x (some axes) false =
+        .ok (if (List.range x.shape.length).filter (fun a => !axes.contains a) = [] then .scalar (out.get [])
+             else .arr out) ∧
+      out.shape = gather x.shape ((List.range x.shape.length).filter fun a => !axes.contains a) ∧
+      out.fill = x.fill ∧
+      ∀ j, InB j (gather x.shape ((List.range x.shape.length).filter fun a => !axes.contains a)) →
+        (∀ r ∈ allIdx (gather x.shape axes), x.get (gather (j ++ r)
+            (invPerm (((List.range x.shape.length).filter fun a => !axes.contains a) ++ axes))) ≤ out.get j) ∧
+        ∃ r ∈ allIdx (gather x.shape axes), x.get (gather (j ++ r)
+            (invPerm (((List.range x.shape.length).filter fun a => !axes.contains a) ++ axes))) = out.get j :=
+  reduceCore_sel_get .max rfl (· ≤ ·)
+    (fun a b => by simp only [RedOp.ap]; omega) (fun a b => by simp only [RedOp.ap]; omega)
+    (fun a b => by simp only [RedOp.ap]; omega) (fun a b c h1 h2 => Int.le_trans h1 h2) Int.le_refl
+    (fun a => by simp only [RedOp.ap]; omega) x axes transpose_get hwf hs hnd hr hpos
+
+/-- **reduce_min_get**: likewise the minimum. -/
+theorem reduce_min_get (x : COO Int) (axes : List Nat)
+    (transpose_get : ∀ (y : COO Int) (p : List Nat), p.Perm (List.range y.shape.length) → y.WF →
+      (keysOf y.entries).Nodup → ∀ j, InB j (gather y.shape p) →
+      (y.transposeCore p).get j = y.get (gather j (invPerm p)))
+    (hwf : x.WF) (hs : SortedLin x.shape x.entries) (hnd : axes.Nodup)
+    (hr : ∀ a ∈ axes, a < x.shape.length) (hpos : 0 < prod (gather x.shape axes)) :
+    ∃ out : COO Int,
+      COO.reduceCore .min x (some axes) false =
+        .ok (if (List.range x.shape.length).filter (fun a => !axes.contains a) = [] then .scalar (out.get [])
+             else .arr out) ∧
+      out.shape = gather x.shape ((List.range x.shape.length).filter fun a => !axes.contains a) ∧
+      out.fill = x.fill ∧
+      ∀ j, InB j (gather x.shape ((List.range x.shape.length).filter fun a => !axes.contains a)) →
+        (∀ r ∈ allIdx (gather x.shape axes), out.get j ≤ x.get (gather (j ++ r)
+            (invPerm (((List.range x.shape.length).filter fun a => !axes.contains a) ++ axes)))) ∧
+        ∃ r ∈ allIdx (gather x.shape axes), x.get (gather (j ++ r)
+            (invPerm (((List.range x.shape.length).filter fun a => !axes.contains a) ++ axes))) = out.get j :=
+  reduceCore_sel_get .min rfl (· ≥ ·)
+    (fun a b => by simp only [RedOp.ap]; omega) (fun a b => by simp only [RedOp.ap]; omega)
+    (fun a b => by simp only [RedOp.ap]; omega) (fun a b c h1 h2 => Int.le_trans h2 h1) Int.le_refl
+    (fun a => by simp only [RedOp.ap]; omega) x axes transpose_get hwf hs hnd hr hpos
 
 /-- the operand index read by `reduce_add_get`: for a permutation `p = kept ++ axes` of the axes,
 `gather (j ++ r) (invPerm p)` has component `(j ++ r)[m]` at axis `p[m]` — kept coordinates from
